@@ -89,7 +89,7 @@ P_INVIVO = {"quick": 0.0012, "thorough": 0.002}
 
 
 def gen_knobs(rng, tier):
-    if rng.random() < P_INVIVO.get(tier, 0.001):
+    if rng.random() < float(os.environ.get("VERIF_P_INVIVO") or P_INVIVO.get(tier, 0.001)):
         return {"population": "invivo"}
     return {
         "population": rng.choice(["prod", "bare", "bare", "plugin"]),
